@@ -446,6 +446,10 @@ def leftover_worlds(sc, seed, tier, stats):
         base = os.path.join(sc.dir, "left%d" % i)
         src, tpl, fl = make_world(base, r, i)
         fl = dict(fl); fl.pop("delete", None); fl.pop("force", None); fl.pop("thr", None)
+        if i % 2 == 1:
+            # with --delete and several workers: the leftover working files are extra destination entries, yet the updates that reuse
+            # them must not lose them to a concurrent delete task
+            fl.update({"delete": 1, "force": 1, "thr": 100, "j": r.choice([2, 4])})
         ssnap = world.snapshot(src)
         import c05
         planted = []
@@ -456,20 +460,58 @@ def leftover_worlds(sc, seed, tier, stats):
                 f.write(b"\xee" * (ssnap[rel]["size"] + 50000 + r.randrange(0, 5000)))
             planted.append(os.path.relpath(tp, tpl))
         dst = base + "/dst"
-        fresh(tpl, dst)
         env = dict(os.environ); env.update(sc.env); env["SY_VERIF_DELTA_THRESHOLD"] = str(ew.BIG)
-        p = subprocess.run([world.SY, src, dst] + ew.cli_of(fl), env=env, cwd=sc.dir, stdout=subprocess.PIPE, stderr=subprocess.PIPE, timeout=120)
+        for rep in range(4 if fl.get("j", 1) > 1 else 1):          # several workers: the interleaving varies from run to run
+            fresh(tpl, dst)
+            p = subprocess.run([world.SY, src, dst] + ew.cli_of(fl), env=env, cwd=sc.dir, stdout=subprocess.PIPE, stderr=subprocess.PIPE, timeout=120)
+            after = world.snapshot(dst)
+            stats["leftover_worlds"] = stats.get("leftover_worlds", 0) + 1
+            tag = {"variant": "leftover-%d" % i, "flags": fl, "seed": seed, "planted": planted, "repetition": rep}
+            nv = len(viol)
+            if p.returncode != 0:
+                viol.append(dict(tag, why="the run over leftover working files failed: rc=%s %s" % (p.returncode, p.stderr.decode("utf-8", "replace")[-200:])))
+            for rel, e in ssnap.items():
+                if e["kind"] == "f" and (rel not in after or after[rel].get("sha") != e["sha"]):
+                    viol.append(dict(tag, path=rel, why="after an uninterrupted run over a leftover working file of an older version the destination file is not the source's (stale bytes of the leftover?)"))
+            for rel in planted:
+                if rel in after:
+                    viol.append(dict(tag, path=rel, why="a working file is left behind after an uninterrupted run"))
+            if len(viol) > nv:
+                break
+        shutil.rmtree(base, ignore_errors=True)
+    # the smallest world in which a delete task for a leftover working file can run WHILE the update that reuses it is under way:
+    # one file that shrank across the gate (large destination, tiny source) with its leftover, one new file, --delete, two workers
+    reps = 8 if tier == "quick" else 40
+    for rep in range(reps):
+        r = vlib.rng_for(seed, "C09-race%d" % rep)
+        base = os.path.join(sc.dir, "race%d" % rep)
+        src, dst = base + "/src", base + "/dst"
+        os.makedirs(src); os.makedirs(dst)
+        old = r.randbytes(7_000_000)
+        newv = bytearray(old[:6_000_000])                     # the file shrank; a few blocks changed: a block-delta update that takes a while
+        for off in (200_000, 2_500_000, 5_100_000):
+            newv[off:off + 4096] = r.randbytes(4096)
+        with open(src + "/shrunk.log", "wb") as f:
+            f.write(bytes(newv))
+        with open(src + "/new.dat", "wb") as f:
+            f.write(r.randbytes([0, 16_000, 64_000, 256_000, 1_000_000, 2_000_000, 4_000_000, 100][rep % 8]))
+        with open(dst + "/shrunk.log", "wb") as f:
+            f.write(old)
+        with open(dst + "/shrunk.log.sy.tmp", "wb") as f:
+            f.write(b"\xee" * 3_000_000)
+        os.utime(dst + "/shrunk.log", ns=(ew.T0NS, ew.T0NS))
+        env = dict(os.environ); env.update(sc.env); env["SY_VERIF_DELTA_THRESHOLD"] = str(ew.BIG)
+        ssnap = world.snapshot(src)
+        p = subprocess.run([world.SY, src, dst, "--delete", "--force-delete", "-j2", "-q"], env=env, cwd=sc.dir, stdout=subprocess.PIPE, stderr=subprocess.PIPE, timeout=60)
         after = world.snapshot(dst)
-        stats["leftover_worlds"] = stats.get("leftover_worlds", 0) + 1
-        tag = {"variant": "leftover-%d" % i, "flags": fl, "seed": seed, "planted": planted}
-        if p.returncode != 0:
-            viol.append(dict(tag, why="the run over leftover working files failed: rc=%s %s" % (p.returncode, p.stderr.decode("utf-8", "replace")[-200:])))
-        for rel, e in ssnap.items():
-            if e["kind"] == "f" and (rel not in after or after[rel].get("sha") != e["sha"]):
-                viol.append(dict(tag, path=rel, why="after an uninterrupted run over a leftover working file of an older version the destination file is not the source's (stale bytes of the leftover?)"))
-        for rel in planted:
-            if rel in after:
-                viol.append(dict(tag, path=rel, why="a working file is left behind after an uninterrupted run"))
+        stats["leftover_race_runs"] = stats.get("leftover_race_runs", 0) + 1
+        bad = [rel for rel, e in ssnap.items() if e["kind"] == "f" and (rel not in after or after[rel].get("sha") != e["sha"])]
+        if p.returncode != 0 or bad or "shrunk.log.sy.tmp" in after:
+            viol.append({"variant": "leftover-race-%d" % rep, "flags": {"delete": 1, "force": 1, "j": 2}, "seed": seed,
+                         "why": "--delete -j2 over a leftover working file next to a file that shrank across the gate: rc=%s, wrong files %r, working file left: %s; %s" % (
+                             p.returncode, bad, "shrunk.log.sy.tmp" in after, p.stderr.decode("utf-8", "replace")[-200:])})
+            shutil.rmtree(base, ignore_errors=True)
+            break
         shutil.rmtree(base, ignore_errors=True)
     return viol
 
